@@ -43,6 +43,24 @@ Theorem C05_window_contents : forall (LI : lm) (w s d : nat), 1 <= s -> 1 <= w -
   sI = RingProofs.st_of item LI (skipn start xs).
 Proof. exact (roll_window_contents item). Qed.
 Print Assumptions C05_window_contents.
+(* the timed output, closed form: while x is consumed after the items pre, every window that is open (after a
+   possible opening at this very item) emits, in ring-slot order, what a fresh inner machine fed with the items
+   since its start emits on x, and its completion output if x is its w-th item *)
+Theorem C05_output_while_an_item_is_consumed : forall (LI : lm) (w s d : nat), 1 <= s -> 1 <= w -> w <= d * s -> 1 <= d ->
+  forall pre x,
+  snd (lnext (roll_l item LI w s d) (snd (lsteps item (roll_l item LI w s d) (l0 (roll_l item LI w s d)) pre)) x)
+  = flat_map (slot_out item LI w s d pre x) (seq 0 d).
+Proof. exact (roll_step_out item). Qed.
+Print Assumptions C05_output_while_an_item_is_consumed.
+(* and when the key completes: the open windows, in the flush order rot, emit their completion output *)
+Theorem C05_output_at_completion : forall (LI : lm) (w s d : nat), 1 <= s -> 1 <= w -> w <= d * s -> 1 <= d ->
+  forall xs,
+  snd (ltimed item (roll_l item LI w s d) xs)
+  = flat_map (fun o => match RingProofs.after w s d (length xs) o with
+                       | Some st => ldone LI (RingProofs.st_of item LI (skipn st xs)) | None => [] end)
+             (rot s d (length xs)).
+Proof. exact (roll_done_out item). Qed.
+Print Assumptions C05_output_at_completion.
 (* at completion the partial windows are closed in the order in which they were opened *)
 Theorem C05_flush_position : forall (w s d : nat), 1 <= s -> 1 <= w -> w <= d * s -> 1 <= d ->
   forall n j, j * s < n -> n < j * s + w ->
